@@ -20,6 +20,7 @@ import (
 	"unsafe"
 
 	"github.com/hyperjumptech/grule-rule-engine/ast"
+	"github.com/hyperjumptech/grule-rule-engine/engine"
 )
 
 // ---------------------------------------------------------------------------
@@ -204,13 +205,13 @@ type c09Op struct {
 	max    uint64
 }
 
-func c09RunOne(lib *ast.KnowledgeLibrary, op c09Op, stamp *int64, yield int) (r1, r2 seqResult, err error) {
+func c09RunOne(lib *ast.KnowledgeLibrary, op c09Op, stamp *int64, yield int, eng *engine.GruleEngine) (r1, r2 seqResult, err error) {
 	kb, err := NewInstance(lib)
 	if err != nil {
 		return r1, r2, err
 	}
 	run := func() seqResult {
-		res := Run(kb, nil, CopyStateLive(op.state), RunCfg{MaxCycle: op.max, NoSnap: true, Stamp: stamp, Hooks: &Hooks{YieldP: yield}})
+		res := Run(kb, nil, CopyStateLive(op.state), RunCfg{MaxCycle: op.max, NoSnap: true, Stamp: stamp, Hooks: &Hooks{YieldP: yield}, Eng: eng})
 		var fired []string
 		for _, e := range res.Events {
 			if e.Kind == "exec" {
@@ -305,6 +306,24 @@ func runC09Case(c *Ctx, idx int) *CaseResult {
 	procs := []int{1, 2, 4, 16}[idx%4]
 	prev := runtime.GOMAXPROCS(procs)
 	defer runtime.GOMAXPROCS(prev)
+	// every other case: all goroutines execute through ONE engine object (the sequential
+	// expectation is computed with the same object, so its settings are the same)
+	var sharedEng *engine.GruleEngine
+	if idx%2 == 1 {
+		sharedEng = engine.NewGruleEngine()
+		sharedEng.MaxCycle = 10
+		cr.inc("cases_with_one_engine_object_for_all_goroutines")
+	}
+	// the concurrent phase works on a library of its own, built the same way, so that the very
+	// first instances of a blueprint are created concurrently (lazily filled fields race there)
+	clib, _, cerr := BuildVia(pipeline, prog, style)
+	if cerr != nil {
+		clib = lib
+	} else {
+		for n := range libRemoved {
+			clib.RemoveRuleEntry(n, kbName, kbVer)
+		}
+	}
 	ops := make([][]c09Op, G)
 	want := make([][2][]seqResult, G)
 	for g := 0; g < G; g++ {
@@ -315,7 +334,7 @@ func runC09Case(c *Ctx, idx int) *CaseResult {
 				op.remove = prog.Rules[gr.Intn(len(prog.Rules))].Name
 			}
 			ops[g] = append(ops[g], op)
-			s1, s2, err := c09RunOne(lib, op, nil, 0)
+			s1, s2, err := c09RunOne(lib, op, nil, 0, sharedEng)
 			if err != nil {
 				cr.violate("NewKnowledgeBaseInstance failed: "+err.Error(), map[string]interface{}{"grl": text})
 				return cr
@@ -338,7 +357,7 @@ func runC09Case(c *Ctx, idx int) *CaseResult {
 			<-start
 			for i, op := range ops[g] {
 				lo := atomic.AddInt64(stamp, 1)
-				s1, s2, err := c09RunOne(lib, op, stamp, 1+(g+i)%4)
+				s1, s2, err := c09RunOne(clib, op, stamp, 1+(g+i)%4, sharedEng)
 				hi := atomic.AddInt64(stamp, 1)
 				if err != nil {
 					errs[g] = err
